@@ -48,10 +48,10 @@ func report(id, tier string, seed int, cfg *Config, hdir string, results []*Entr
 
 	var states, transitions, paths int64
 	obligations, discharged := 0, 0
-	var undecided []string
+	undecided := []string{}
 	var samples []interface{}
 	validated := 0
-	var spurious []string
+	spurious := []string{}
 	knownHit := map[string]*violation{}
 	var viols []*violation
 	endedCount := map[string]int{}
@@ -296,7 +296,7 @@ func report(id, tier string, seed int, cfg *Config, hdir string, results []*Entr
 		}
 		fnList = append(fnList, map[string]string{"fn": f, "file": strings.TrimPrefix(file, "/repo/"), "blob": blobCache[file]})
 	}
-	var assumeList []string
+	assumeList := []string{"go/ssa (x/tools v0.29.0) SSA construction is faithful to the Go semantics of /repo's source", "cvc5 1.0.3 / z3 4.8.12 / z3 5.1.0 answers are sound", "byte strings are SMT strings over characters 0..255"}
 	for a := range assumptions {
 		assumeList = append(assumeList, a)
 	}
